@@ -541,6 +541,7 @@ func (server *SugarDB) adjustMemoryUsage(ctx context.Context) error {
 			}
 
 			key := heap.Pop(server.lfuCache.cache[database]).(string)
+			verifhook.Event("evict.mem", server.config.EvictionPolicy, database, key, server.memUsed, server.config.MaxMemory, server.store[database][key].ExpireAt)
 			if !server.isInCluster() {
 				// If in standalone mode, directly delete the key
 				if err := server.deleteKey(ctx, key); err != nil {
@@ -574,6 +575,7 @@ func (server *SugarDB) adjustMemoryUsage(ctx context.Context) error {
 			}
 
 			key := heap.Pop(server.lruCache.cache[database]).(string)
+			verifhook.Event("evict.mem", server.config.EvictionPolicy, database, key, server.memUsed, server.config.MaxMemory, server.store[database][key].ExpireAt)
 			if !server.isInCluster() {
 				// If in standalone mode, directly delete the key.
 				if err := server.deleteKey(ctx, key); err != nil {
@@ -610,6 +612,7 @@ func (server *SugarDB) adjustMemoryUsage(ctx context.Context) error {
 				if db == database {
 					for key, _ := range data {
 						if idx == 0 {
+							verifhook.Event("evict.mem", server.config.EvictionPolicy, database, key, server.memUsed, server.config.MaxMemory, server.store[database][key].ExpireAt)
 							if !server.isInCluster() {
 								// If in standalone mode, directly delete the key
 								if err := server.deleteKey(ctx, key); err != nil {
@@ -645,6 +648,7 @@ func (server *SugarDB) adjustMemoryUsage(ctx context.Context) error {
 			key := server.keysWithExpiry.keys[database][idx]
 			server.keysWithExpiry.rwMutex.RUnlock()
 
+			verifhook.Event("evict.mem", server.config.EvictionPolicy, database, key, server.memUsed, server.config.MaxMemory, server.store[database][key].ExpireAt)
 			if !server.isInCluster() {
 				// If in standalone mode, directly delete the key
 				if err := server.deleteKey(ctx, key); err != nil {
